@@ -3,7 +3,7 @@
                 dispatcher / popHandler; tied by the schedharness correspondence: scripted server, concurrent real callers)
    request id : Gen.ArithFromGo.go_nextRequestID (translated from the Go AST on every run)
    shape pins : Gen.SendSide.src_* (re-read from uasc/secure_channel.go with go/ast on every run)
-   `reachable false seed s`: s is reached from a fresh channel (counter = seed) by ANY finite interleaving of ANY number
+   `reachable VNow seed s`: s is reached from a fresh channel (counter = seed) by ANY finite interleaving of ANY number
    of callers and the dispatcher with ANY sequence of messages from the peer (ENet m, m arbitrary, at any time). *)
 From Coq Require Import ZArith List Bool Lia String.
 From Opcua Require Import Gen.ArithFromGo Gen.SendSide Model.SendCorr Proofs.SendCorrProofs.
@@ -13,36 +13,36 @@ Open Scope Z_scope.
 (* a call that returns success holds a response whose request id is the call's own, that carries no error and whose
    type is the one the caller's handler accepts (so a response of another type is never a success) *)
 Theorem C18_own_response : forall seed s t k w id u m,
-  reachable false seed s -> cs s t = CDone k w id (ROk u m) ->
+  reachable VNow seed s -> cs s t = CDone k w id (ROk u m) ->
   m_id m = id /\ m_err m = false /\ m_ty m = Some w.
 Proof. intros; eapply own_response; eassumption. Qed.
 
 (* also error returns that consumed a message consumed one addressed to the call *)
 Theorem C18_consumed_is_own : forall seed s t k w id r u m,
-  reachable false seed s -> cs s t = CDone k w id r -> res_msg r = Some (u, m) -> m_id m = id.
+  reachable VNow seed s -> cs s t = CDone k w id r -> res_msg r = Some (u, m) -> m_id m = id.
 Proof. intros; eapply consumed_is_own; eassumption. Qed.
 
 (* no received message (u = its arrival index, unique per frame, so a duplicated frame counts twice) is handed to two
    callers, and once consumed it is neither in any caller's channel nor held by the dispatcher *)
 Theorem C18_consumed_once : forall seed s t1 t2 k1 w1 id1 r1 k2 w2 id2 r2 u m1 m2,
-  reachable false seed s ->
+  reachable VNow seed s ->
   cs s t1 = CDone k1 w1 id1 r1 -> res_msg r1 = Some (u, m1) ->
   cs s t2 = CDone k2 w2 id2 r2 -> res_msg r2 = Some (u, m2) -> t1 = t2.
 Proof. intros; eapply consumed_once; eassumption. Qed.
 
 Theorem C18_consumed_not_pending : forall seed s t k w id r u m t' m',
-  reachable false seed s -> cs s t = CDone k w id r -> res_msg r = Some (u, m) ->
+  reachable VNow seed s -> cs s t = CDone k w id r -> res_msg r = Some (u, m) ->
   slot s t' <> Some (u, m') /\ disp_msg (d s) <> Some (u, m').
 Proof. intros; eapply consumed_not_pending; eassumption. Qed.
 
 (* the buffered channel of size one never overflows: the dispatcher never drops a response it has a handler for *)
-Theorem C18_never_overflows : forall seed s, reachable false seed s -> overflow s = false.
+Theorem C18_never_overflows : forall seed s, reachable VNow seed s -> overflow s = false.
 Proof. intros; eapply never_overflows; eassumption. Qed.
 
 (* wrong type => error *)
 Theorem C18_wrong_type_is_error : forall s t k w id u m s',
   cs s t = CWait k w id -> slot s t = Some (u, m) -> m_ty m <> Some w ->
-  step false s (ETake t) = Some s' ->
+  step VNow s (ETake t) = Some s' ->
   exists r, cs s' t = CDone k w id r /\ (r = RErrStatus u m \/ r = RErrHandler u m).
 Proof. intros; eapply wrong_type_is_error; eassumption. Qed.
 
@@ -54,7 +54,7 @@ Proof. intros x H. split; [apply next_id_closed | apply next_id_range]; exact H.
 (* PROVISO (id wrap): while at most 2^32 - 1 request ids have been handed out on the channel, no two calls have the
    same id ... *)
 Theorem C18_ids_distinct_until_wrap : forall seed s t1 t2 i,
-  reachable false seed s -> 0 <= seed <= 4294967295 -> Z.of_nat (g_nalloc s) <= 4294967295 ->
+  reachable VNow seed s -> 0 <= seed <= 4294967295 -> Z.of_nat (g_nalloc s) <= 4294967295 ->
   id_of (cs s t1) = Some i -> id_of (cs s t2) = Some i -> t1 = t2.
 Proof. intros; eapply ids_distinct; eassumption. Qed.
 
@@ -63,7 +63,7 @@ Proof. intros; eapply ids_distinct; eassumption. Qed.
    Beyond a full wrap of the 32-bit counter a response delayed for 2^32 - 1 requests is indistinguishable on the
    wire from the answer to the newer request with the same id: that is the protocol's own limit. *)
 Theorem C18_own_answer : forall seed s t k w id u m t',
-  reachableP honest false seed s -> 0 <= seed <= 4294967295 -> Z.of_nat (g_nalloc s) <= 4294967295 ->
+  reachableP honest VNow seed s -> 0 <= seed <= 4294967295 -> Z.of_nat (g_nalloc s) <= 4294967295 ->
   cs s t = CDone k w id (ROk u m) -> m_for m = Some t' -> t' = t.
 Proof. intros; eapply own_answer; eassumption. Qed.
 
@@ -79,13 +79,15 @@ Definition ex_trace : list ev :=
    ENet (Msg 4294967295 (Some 676) false (Some 0%nat)); EPop; ELock; EDeliver; ETake 1%nat; ETake 0%nat; EResume].
 
 Example C18_nonvacuous : exists s,
-  reachableP honest false 4294967294 s /\ Z.of_nat (g_nalloc s) <= 4294967295 /\
+  reachableP honest VNow 4294967294 s /\ Z.of_nat (g_nalloc s) <= 4294967295 /\
   map (outcome s) [0%nat; 1%nat; 2%nat] = [(0, 4294967295, 4); (0, 1, 1); (0, 2, 0)].
 Proof. eexists. split; [exists ex_trace; vm_compute; reflexivity|]. vm_compute. split; [discriminate|reflexivity]. Qed.
 
 (* the shape of the code the model transcribes, re-read from the source on every run *)
 Theorem C18_tie_source_shape :
-  src_sync_dispatcher = ["s.Receive(ctx)"; "s.popHandler(msg.RequestID)"; "s.rcvLocker.lock()"; "s.rcvLocker.waitIfLock()"]%string /\
+  src_sync_dispatcher = ["s.Receive(ctx)"; "s.popHandler(msg.RequestID)";
+     "s.rcvLocker.lockIf(func() bool { return msg.RequestID != 0 && atomic.LoadUint32(&s.openingReqID) == msg.RequestID })";
+     "s.rcvLocker.waitIfLock()"]%string /\
   src_select_branches = [("<-ctx.Done()", true); ("<-s.disconnected", true); ("msg := <-ch", false); ("<-timer.C", true)]%string /\
   src_sync_SendRequestWithTimeout = ["s.reqLocker.waitIfLockThen(func() { s.pendingReq.Add(1) })"; "s.pendingReq.Add(1)";
      "s.getActiveChannelInstance()"; "s.pendingReq.Done()";
